@@ -382,14 +382,14 @@ Crash ==
     /\ mech' = {"DanglingDeclAfterGC"}
     /\ UNCHANGED <<text, ver, opened, cache, sess, taint, unc, steps, hist>>
 
-\* the client restarts the server on the current text
+\* the client restarts the server on the current text and re-opens its documents (main first)
 Restart ==
     /\ phase = "dead"
     /\ phase' = "idle"
     /\ cache' = FreshCache(text) /\ sess' = FreshSess(text) /\ taint' = {} /\ mech' = {}
     /\ unc' = [m \in Mods |-> "ok"]
-    /\ ver' = [m \in Mods |-> 1] /\ opened' = {"main"}
-    /\ UNCHANGED <<text, pend, steps, hist>>
+    /\ ver' = [m \in Mods |-> 1]
+    /\ UNCHANGED <<text, opened, pend, steps, hist>>
 
 Next ==
     \/ \E m \in Mods, k \in Kinds : Edit(m, k)
